@@ -2,6 +2,7 @@
 # SPDX-License-Identifier: GPL-2.0+ OR BSD-2-Clause
 
 from functools import partial
+from typing import Any, NamedTuple
 
 import jax
 from jax import lax
@@ -28,8 +29,34 @@ def _moveaxis(a, source, destination):
     return jnp.moveaxis(a, source, destination)
 
 
+class _FrozenAxes(NamedTuple):
+    """Hashable stand-in for an axes specification containing dicts or lists."""
+
+    leaves: tuple
+    treedef: Any
+
+
+def _freeze_axes(axes):
+    from jax.tree_util import tree_flatten
+
+    if _int_or_none(axes):
+        return axes
+    leaves, treedef = tree_flatten(axes, is_leaf=_int_or_none)
+    return _FrozenAxes(tuple(leaves), treedef)
+
+
+def _thaw_axes(axes):
+    from jax.tree_util import tree_unflatten
+
+    if isinstance(axes, _FrozenAxes):
+        return tree_unflatten(axes.treedef, axes.leaves)
+    return axes
+
+
 def _generic_smap(fun, in_axes, out_axes, unroll, *x, _scan=lax.scan, **k):
     from jax.tree_util import tree_flatten, tree_map, tree_unflatten
+
+    in_axes, out_axes = _thaw_axes(in_axes), _thaw_axes(out_axes)
 
     if k:
         raise TypeError("keyword arguments are not allowed in map")
@@ -121,7 +148,8 @@ def smap(fun, in_axes=0, out_axes=0, *, unroll=1):
     For the semantics of `in_axes` and `out_axes` see `jax.vmap`. For the
     semantics of `unroll` see `jax.lax.scan`.
     """
-    return partial(_smap, fun, in_axes, out_axes, unroll)
+    # `in_axes` and `out_axes` are static arguments of the jitted map: make them hashable
+    return partial(_smap, fun, _freeze_axes(in_axes), _freeze_axes(out_axes), unroll)
 
 
 @partial(jax.jit, donate_argnames=("x",))
